@@ -10,6 +10,7 @@ import (
 	"context"
 	"flag"
 	"fmt"
+	"net"
 	"os"
 	"os/exec"
 	"sort"
@@ -279,6 +280,11 @@ func streamSrvAsm(seed uint64, thorough bool) {
 	for i := 0; i < 10*vol; i++ {
 		srvLongCuts(r, 1, srvStream(r, srvStreamOpts{maxFrames: 3, size: 0, badPct: 20, tailPct: 20}), 0, 10)
 	}
+	// --- the handler returns the same *ErrorParseTCP instance for many requests (error sentinels) ---
+	rq := newRng(seed ^ 0x5e270)
+	for i := 0; i < 60*vol; i++ {
+		srvLongCuts(rq, 0, srvSentinelStream(rq), 20, 10)
+	}
 	// --- frames whose MBAP length field exceeds the largest legal ADU, a normal request behind them ---
 	ro := newRng(seed ^ 0x0ae5)
 	for v := 0; v < vol; v++ {
@@ -356,6 +362,10 @@ func srvFrameEnds(s []byte) []int {
 // server has handled a complete request before sending the next), 1: client that sends the chunks
 // back to back, 2: everything is already buffered when the server starts reading.
 func srvConnCase(g *srvRig, mode, kind int, chunks [][]byte) (args []V, outcome []V) {
+	return srvConnCaseW(g, mode, kind, chunks, nil)
+}
+
+func srvConnCaseW(g *srvRig, mode, kind int, chunks [][]byte, wf *srvFailW) (args []V, outcome []V) {
 	stream := srvConcat(chunks)
 	before := g.nerr.Load()
 	var rec *srvRec
@@ -371,7 +381,7 @@ func srvConnCase(g *srvRig, mode, kind int, chunks [][]byte) (args []V, outcome 
 		}
 		fail = srvWait(rec.closed)
 	} else {
-		k := g.dial()
+		k := g.dialW(wf)
 		rec = k.rec
 		ends := srvFrameEnds(stream)
 		sent, e := 0, 0
@@ -402,7 +412,30 @@ func srvConnCase(g *srvRig, mode, kind int, chunks [][]byte) (args []V, outcome 
 	if fail != nil {
 		return args, []V{L(), I(99), I(0)}
 	}
-	return args, g.connOutcome(rec, before)
+	outcome = g.connOutcome(rec, before)
+	srvMarkFailedWrite(outcome, wf)
+	return args, outcome
+}
+
+// the connection ended after the scripted write failure (reported like any connection error)
+func srvMarkFailedWrite(outcome []V, wf *srvFailW) {
+	if wf != nil && wf.failed.Load() && len(outcome) == 3 {
+		if st, ok := outcome[1].(vInt); ok && st == 2 {
+			outcome[1] = I(3)
+		}
+	}
+}
+
+// srvEmitConnW: a pipe client (kind 0 or 1) against a server side whose j-th Write fails after ks bytes
+func srvEmitConnW(g *srvRig, mode, kind int, chunks [][]byte, j, ks int) {
+	stream := srvConcat(chunks)
+	w := L(I(j), I(ks))
+	if !g.begin("srv_conn", L(I(mode), I(kind), srvChunksV(chunks), B(stream), w)) {
+		return
+	}
+	args, outc := srvConnCaseW(g, mode, kind, chunks, &srvFailW{failAt: j, ks: ks})
+	emit("srv_conn", L(append(append([]V{I(mode), I(kind)}, args...), w)...), L(append(outc, srvWhole(mode, stream))...))
+	g.end()
 }
 
 func srvEmitConn(g *srvRig, mode, kind int, chunks [][]byte) {
@@ -417,7 +450,9 @@ func srvEmitConn(g *srvRig, mode, kind int, chunks [][]byte) {
 
 // srvEmitScript runs one connection whose reads follow the script (client kind 3): data with and
 // without a deadline error, empty deadline reads, write deadline enforced
-func srvEmitScript(g *srvRig, mode int, events []srvEvent) {
+func srvEmitScript(g *srvRig, mode int, events []srvEvent) { srvEmitScriptW(g, mode, events, nil) }
+
+func srvEmitScriptW(g *srvRig, mode int, events []srvEvent, wf *srvFailW) {
 	var stream []byte
 	for _, ev := range events {
 		stream = append(stream, ev.data...)
@@ -426,13 +461,24 @@ func srvEmitScript(g *srvRig, mode int, events []srvEvent) {
 	for i, ev := range events {
 		intended[i] = L(B(ev.data), Bool(ev.dl))
 	}
-	if !g.begin("srv_conn", g.caseArgs(I(mode), I(3), L(intended...), B(stream))) {
+	caseArgs := func(reads V) V {
+		if wf != nil {
+			return L(I(mode), I(3), reads, B(stream), L(I(wf.failAt), I(wf.ks)))
+		}
+		return g.caseArgs(I(mode), I(3), reads, B(stream))
+	}
+	if !g.begin("srv_conn", caseArgs(L(intended...))) {
 		return
 	}
 	defer g.end()
 	before := g.nerr.Load()
 	sc := newSrvScript(events)
-	rec := newSrvRec(sc)
+	var side net.Conn = sc
+	if wf != nil {
+		wf.Conn = sc
+		side = wf
+	}
+	rec := newSrvRec(side)
 	g.lis.ch <- rec
 	select {
 	case <-sc.idle:
@@ -446,8 +492,9 @@ func srvEmitScript(g *srvRig, mode int, events []srvEvent) {
 	outc := []V{L(), I(99), I(0)}
 	if fail == nil {
 		outc = g.connOutcome(rec, before)
+		srvMarkFailedWrite(outc, wf)
 	}
-	emit("srv_conn", g.caseArgs(I(mode), I(3), reads, B(stream)), L(append(outc, srvWhole(mode, stream))...))
+	emit("srv_conn", caseArgs(reads), L(append(outc, srvWhole(mode, stream))...))
 }
 
 // srvEvents turns chunks into read events: how selects the error that comes with the data
@@ -595,6 +642,35 @@ func streamSrvConn(seed uint64, thorough bool) {
 			n++
 		})
 	}
+	// --- the handler returns THE SAME *ErrorParseTCP instance for many requests (error sentinels) ---
+	rq := newRng(seed ^ 0x5e271)
+	for i := 0; i < 60*vol; i++ {
+		s := srvSentinelStream(rq)
+		srvEmitConn(g, 0, 0, srvLockstepChunks(rq, s))
+		srvEmitConn(g, 0, 1, srvCut(s, srvRandomCuts(rq, len(s))))
+		srvEmitConn(g, 0, 2, [][]byte{s})
+		srvEmitScript(g, 0, srvEvents(rq, srvCut(s, srvRandomCuts(rq, len(s))), 2, true))
+	}
+	// --- a Write that times out after the peer took k bytes of it: k = 0, 1, 4, all but one ---
+	for i := 0; i < 40*vol; i++ {
+		var s []byte
+		used := map[uint16]bool{}
+		for f := 0; f < 3+rq.intn(2); f++ {
+			t := srvTid(rq, false)
+			for used[t] {
+				t = srvTid(rq, false)
+			}
+			used[t] = true
+			s = append(s, srvLegal(rq, srvFcs[rq.intn(10)], t, 0)...)
+		}
+		j := rq.intn(3)
+		for _, ks := range []int{0, 1, 4, -1} {
+			srvEmitConnW(g, 0, i%2, srvLockstepChunks(rq, s), j, ks)
+			srvEmitScriptW(g, 0, srvEvents(rq, srvLockstepChunks(rq, s), 2, i%2 == 0), &srvFailW{failAt: j, ks: ks})
+		}
+		// several replies in the failing write
+		srvEmitConnW(g, 0, 1, [][]byte{s}, 0, []int{0, 1, 4, 9, 10, -1}[rq.intn(6)])
+	}
 	ok := g.stop()
 
 	// --- a handler slower than the write timeout (20 ms / 60 ms): every request is still answered ---
@@ -637,6 +713,10 @@ func streamSrvTwo(seed uint64, thorough bool) {
 	for i := 0; i < n; i++ {
 		srvTwoCase(g, r, i%5 != 4, probe)
 	}
+	rq := newRng(seed ^ 0x2c1)
+	for i := 0; i < n/3; i++ { // the shared error sentinels on two connections at once
+		srvTwoCaseS(g, rq, i%4 == 3, true, probe)
+	}
 	if !g.stop() {
 		emit("srv_two", L(I(0), L(), B(nil), L(), B(nil)), L(L(L(), I(98), I(0)), L(L(), I(0), I(0)), I(0)))
 	}
@@ -645,7 +725,15 @@ func streamSrvTwo(seed uint64, thorough bool) {
 }
 
 func srvTwoCase(g *srvRig, r *rng, withPanic bool, probe []byte) {
+	srvTwoCaseS(g, r, withPanic, false, probe)
+}
+
+// sentinel: both connections carry requests answered with the shared error sentinels
+func srvTwoCaseS(g *srvRig, r *rng, withPanic, sentinel bool, probe []byte) {
 	sa := srvStream(r, srvStreamOpts{maxFrames: 3, size: 0, badPct: 20})
+	if sentinel {
+		sa = srvSentinelStream(r)
+	}
 	// a request that panics, somewhere in A's stream
 	pf := srvLegal(r, srvFcs[r.intn(10)], r.u16()&^7|6, 0)
 	if withPanic {
@@ -654,6 +742,9 @@ func srvTwoCase(g *srvRig, r *rng, withPanic bool, probe []byte) {
 		sa = append(append(append([]byte{}, sa[:at]...), pf...), sa[at:]...)
 	}
 	sb := srvStream(r, srvStreamOpts{maxFrames: 4, size: 0, badPct: 20, tailPct: 10})
+	if sentinel {
+		sb = srvSentinelStream(r)
+	}
 	ca := srvCut(sa, srvRandomCuts(r, len(sa)))
 	cb := srvCut(sb, srvRandomCuts(r, len(sb)))
 	half := r.intn(len(cb) + 1)
@@ -732,6 +823,7 @@ func streamSrvCfgChild(seed uint64, thorough bool) {
 		for i := 0; i < 3*vol; i++ {
 			srvTwoCase(g, r, i%3 != 2, probe)
 		}
+		srvTwoCaseS(g, r, false, true, probe)
 	} else {
 		// every handler class: response, typed, generic (errors.New / by value), wrapped, panic(), (nil, nil)
 		classes := []uint16{0, 4, 5, 5 | 8, 7, 6, 6 | 8}
@@ -750,6 +842,7 @@ func streamSrvCfgChild(seed uint64, thorough bool) {
 				append(srvLegal(r, 3, 0x5000, 0), srvGarbage(r)...),
 				append(srvBadFrame(r, 0x5101), srvLegal(r, 4, 0x5200, 0)...),
 				srvStream(r, srvStreamOpts{maxFrames: 4, allowPanic: true, size: 0, badPct: 30, tailPct: 30}),
+				srvSentinelStream(r),
 			} {
 				srvEmitConn(g, 0, 0, srvLockstepChunks(r, s))
 				srvEmitConn(g, 0, 2, [][]byte{s})
